@@ -55,6 +55,16 @@ type livePeer struct {
 	closed      bool
 	txStream    []*wire.MsgTx
 	streamOn    bool
+	// announcements without delivery (C14 live): one entry is sent as an inv per ping tick once the
+	// node is in sync on the connection; getdata(tx) requests are recorded with their arrival time
+	invQueue [][]bitcoin.Hash32
+	txReqs   []liveTxReq
+}
+
+type liveTxReq struct {
+	hash bitcoin.Hash32
+	conn int
+	at   time.Time
 }
 
 func newLivePeer(fp *fakePeer) (*livePeer, error) {
@@ -124,6 +134,14 @@ func (lp *livePeer) serve(c net.Conn, idx int) {
 				_ = inv.AddInvVect(wire.NewInvVect(wire.InvTypeTx, &h))
 				extra = append(extra, peerMsg{msg: inv, tag: "inv"})
 			}
+			if len(lp.invQueue) > 0 && lp.fp.sendHeaders && idx == len(lp.conns)-1 {
+				inv := wire.NewMsgInv()
+				for k := range lp.invQueue[0] {
+					_ = inv.AddInvVect(wire.NewInvVect(wire.InvTypeTx, &lp.invQueue[0][k]))
+				}
+				lp.invQueue = lp.invQueue[1:]
+				extra = append(extra, peerMsg{msg: inv, tag: "inv"})
+			}
 			lp.mu.Unlock()
 			if silent {
 				continue
@@ -158,6 +176,12 @@ func (lp *livePeer) serve(c net.Conn, idx int) {
 			}
 			lp.getHdrs++
 			ev, evn = "getheaders", lp.getHdrs
+		case *wire.MsgGetData:
+			for _, iv := range m.InvList {
+				if iv.Type == wire.InvTypeTx {
+					lp.txReqs = append(lp.txReqs, liveTxReq{iv.Hash, idx, time.Now()})
+				}
+			}
 		}
 		mute := lp.muteVersion
 		lp.fp.handle(msg)
